@@ -213,6 +213,9 @@ def run_incarnation(fs, spec, meta, dtype, seed, base, plan, log, use_ckpt):
             patch.set(cls, "run", run)
             patch.set(cls, "save_full_state", save_full_state)
         try:
+            # randomness consumed while the objects are constructed (e.g. the step-size search
+            # of an HMC operator) is owned too: a function of the seed and of the resume position
+            ctl.reseed("construct", base)
             out = incarnation.run_main(fs, copy.deepcopy(spec), checkpoint=meta["ckpt"] if use_ckpt else None, dtype=dtype)
         finally:
             SimSignalHandler.controller = None
@@ -445,6 +448,8 @@ def scene_recipes(tier, seed, scale):
     out.append({"kind": "toy_mcmc", "operators": ["hmc-mass"], "iterations": 14, "freq": 5, "mass_swap": 6})
     out.append({"kind": "toy_mcmc", "operators": ["hmc-adaptive"], "iterations": 16, "freq": 4, "use_acceptance_rate": True})
     out.append({"kind": "toy_mcmc", "operators": ["sliding", "scaler"], "iterations": 12, "freq": 4, "disable_adaptation": True})
+    out.append({"kind": "toy_mcmc", "operators": ["hmc"], "iterations": 10, "freq": 3, "find_step_size": True})
+    out.append({"kind": "toy_mcmc", "operators": ["hmc-mass-adaptive"], "iterations": 12, "freq": 4, "find_step_size": True})
     # configurations the CLI emits
     clis = [
         ("mcmc", ["--clock", "strict", "--coalescent", "constant"], 60, 20),
@@ -482,7 +487,8 @@ def scene_recipes(tier, seed, scale):
                         "logger": rng.bernoulli(0.5), "log_every": rng.choice([1, 2, 5]), "window": rng.choice([None, 3, 10]), "disable_adaptation": rng.bernoulli(0.15),
                         "mass_freq": rng.choice([2, 4, 10]), "mass_window": rng.bernoulli(0.15), "mass_swap": rng.choice([0, 0, 5, 8]), "use_acceptance_rate": rng.bernoulli(0.2),
                         "leap_steps": rng.randint(1, 5), "dim": rng.choice([1, 2, 3, 5]), "dtype": rng.choice(["float64", "float64", "float32"]),
-                        "param_dtype": rng.choice(["default", "default", "torch.float64"])})
+                        "param_dtype": rng.choice(["default", "default", "torch.float64"]), "find_step_size": rng.bernoulli(0.15),
+                        "adapt_start": rng.choice([None, None, 3, 8]), "adapt_end": rng.choice([None, None, 12])})
         else:
             sub, args, it, fr = rng.choice(clis)
             mult = rng.randint(1, 3)
